@@ -133,6 +133,7 @@ type replayHist struct {
 // C04: all honest, exact search
 
 type c04cfg struct {
+	sign    bool
 	n       int
 	senders int
 	rounds  int
@@ -140,7 +141,11 @@ type c04cfg struct {
 }
 
 func (k c04cfg) String() string {
-	return fmt.Sprintf("N%d-%dx%d-f%d", k.n, k.senders, k.rounds, k.focus)
+	op := ""
+	if k.sign {
+		op = "sign-"
+	}
+	return fmt.Sprintf("%sN%d-%dx%d-f%d", op, k.n, k.senders, k.rounds, k.focus)
 }
 
 func seq(n int) []uint16 {
@@ -154,7 +159,7 @@ func seq(n int) []uint16 {
 func c04case(k c04cfg) harness.Case {
 	return harness.Case{ID: "c04/" + k.String(), Run: func(c *harness.C) {
 		ids := seq(k.n)
-		cfg := rcfg{Participants: ids, Honest: ids, All: ids}
+		cfg := rcfg{Sign: k.sign, Participants: ids, Honest: ids, All: ids}
 		var init []Event
 		type bc struct {
 			s uint16
@@ -267,6 +272,7 @@ func panicClass(pt string) string {
 // C02 / C03: Byzantine sender (+ helpers), bounded number of Byzantine actions
 
 type byzcfg struct {
+	sign      bool
 	name      string
 	honest    []uint16
 	byz       []uint16
@@ -286,7 +292,7 @@ func (b byzcfg) rc() rcfg {
 	if b.outsider != 0 {
 		all = append(all, b.outsider)
 	}
-	return rcfg{Participants: parts, Honest: b.honest, All: all}
+	return rcfg{Sign: b.sign, Participants: parts, Honest: b.honest, All: all}
 }
 
 func (b byzcfg) actions() []Event {
@@ -471,9 +477,10 @@ func gen(c *harness.C) []harness.Case {
 	switch prop {
 	case "C04":
 		c.Note("rule", "explicit-state DFS over all delivery orders of in-flight messages of real Schemes (any-order network), dedup on canonical dump of receivers' private state + in-flight multiset + hand-overs; f0 = global exact search, fK = only deliveries to party K branch (others eager). distinct_nontrivial = distinct quiescent histories")
-		global := []c04cfg{{2, 1, 1, 0}, {2, 2, 1, 0}, {2, 1, 2, 0}, {2, 2, 2, 0}, {3, 1, 1, 0}, {3, 2, 1, 0}, {3, 1, 2, 0}, {4, 1, 1, 0}}
+		global := []c04cfg{{false, 2, 1, 1, 0}, {false, 2, 2, 1, 0}, {false, 2, 1, 2, 0}, {false, 2, 2, 2, 0}, {false, 3, 1, 1, 0}, {false, 3, 2, 1, 0}, {false, 3, 1, 2, 0}, {false, 4, 1, 1, 0},
+			{true, 2, 2, 2, 0}, {true, 3, 1, 1, 0}, {true, 3, 2, 1, 0}}
 		if c.Thorough() {
-			global = append(global, c04cfg{3, 2, 2, 0}, c04cfg{4, 2, 1, 0}, c04cfg{4, 1, 2, 0}, c04cfg{5, 1, 1, 0})
+			global = append(global, c04cfg{false, 3, 2, 2, 0}, c04cfg{false, 4, 2, 1, 0}, c04cfg{false, 4, 1, 2, 0}, c04cfg{false, 5, 1, 1, 0}, c04cfg{true, 3, 1, 2, 0}, c04cfg{true, 4, 1, 1, 0})
 		}
 		for _, k := range global {
 			cases = append(cases, c04case(k))
@@ -482,13 +489,13 @@ func gen(c *harness.C) []harness.Case {
 		for _, n := range []int{3, 4} {
 			for _, sr := range [][2]int{{2, 1}, {1, 2}, {2, 2}} {
 				for f := 1; f <= n; f++ {
-					focus = append(focus, c04cfg{n, sr[0], sr[1], uint16(f)})
+					focus = append(focus, c04cfg{false, n, sr[0], sr[1], uint16(f)})
 				}
 			}
 		}
 		if c.Thorough() {
 			for f := 1; f <= 5; f++ {
-				focus = append(focus, c04cfg{5, 1, 1, uint16(f)}, c04cfg{5, 2, 1, uint16(f)}, c04cfg{5, 2, 2, uint16(f)})
+				focus = append(focus, c04cfg{false, 5, 1, 1, uint16(f)}, c04cfg{false, 5, 2, 1, uint16(f)}, c04cfg{false, 5, 2, 2, uint16(f)})
 			}
 		}
 		for _, k := range focus {
@@ -510,6 +517,19 @@ func gen(c *harness.C) []harness.Case {
 				{name: "N4", honest: []uint16{1, 2, 3}, byz: []uint16{4}, outsider: 9, rounds: []uint8{1}, budget: 4},
 				{name: "N4b2", honest: []uint16{1, 2}, byz: []uint16{3, 4}, rounds: []uint8{1}, budget: 4},
 			}
+		}
+		// the same searches on signing sessions (their participant filter and forward closure are
+		// separate code)
+		for _, b := range append([]byzcfg(nil), bs...) {
+			if b.outsider == 0 && !c.Thorough() {
+				continue
+			}
+			b.sign = true
+			b.name += "-sign"
+			if b.outsider == 0 {
+				b.outsider = 9
+			}
+			bs = append(bs, b)
 		}
 		for _, b := range bs {
 			n := len(b.actions())
